@@ -125,6 +125,7 @@ func (f *fibStrategyTreeEntry) pruneIfEmptyEnc() {
 // FindNextHops returns the longest-prefix matching nexthop(s) matching the specified name.
 
 func (f *FibStrategyTree) FindNextHopsEnc(name enc.Name) []*FibNextHopEntry {
+	verifBeforeRLock(&f.fibStrategyRWMutex, "fib.rlock")
 	f.fibStrategyRWMutex.RLock()
 	defer f.fibStrategyRWMutex.RUnlock()
 
@@ -147,6 +148,7 @@ func (f *FibStrategyTree) FindNextHopsEnc(name enc.Name) []*FibNextHopEntry {
 
 // FindStrategy returns the longest-prefix matching strategy choice entry for the specified name.
 func (f *FibStrategyTree) FindStrategyEnc(name enc.Name) enc.Name {
+	verifBeforeRLock(&f.fibStrategyRWMutex, "fib.rlock")
 	f.fibStrategyRWMutex.RLock()
 	defer f.fibStrategyRWMutex.RUnlock()
 
@@ -169,6 +171,7 @@ func (f *FibStrategyTree) FindStrategyEnc(name enc.Name) enc.Name {
 // InsertNextHop adds or updates a nexthop entry for the specified prefix.
 
 func (f *FibStrategyTree) InsertNextHopEnc(name enc.Name, nexthop uint64, cost uint64) {
+	verifBeforeWLock(&f.fibStrategyRWMutex, "fib.lock")
 	f.fibStrategyRWMutex.Lock()
 	defer f.fibStrategyRWMutex.Unlock()
 
@@ -193,6 +196,7 @@ func (f *FibStrategyTree) InsertNextHopEnc(name enc.Name, nexthop uint64, cost u
 
 // ClearNextHops clears all nexthops for the specified prefix.
 func (f *FibStrategyTree) ClearNextHopsEnc(name enc.Name) {
+	verifBeforeWLock(&f.fibStrategyRWMutex, "fib.lock")
 	f.fibStrategyRWMutex.Lock()
 	defer f.fibStrategyRWMutex.Unlock()
 
@@ -210,6 +214,7 @@ func (f *FibStrategyTree) ClearNextHopsEnc(name enc.Name) {
 // RemoveNextHop removes the specified nexthop entry from the specified prefix.
 
 func (f *FibStrategyTree) RemoveNextHopEnc(name enc.Name, nexthop uint64) {
+	verifBeforeWLock(&f.fibStrategyRWMutex, "fib.lock")
 	f.fibStrategyRWMutex.Lock()
 	defer f.fibStrategyRWMutex.Unlock()
 	entry := f.root.findExactMatchEntryEnc(name)
@@ -232,6 +237,7 @@ func (f *FibStrategyTree) RemoveNextHopEnc(name enc.Name, nexthop uint64) {
 
 // GetAllFIBEntries returns all nexthop entries in the FIB.
 func (f *FibStrategyTree) GetAllFIBEntries() []FibStrategyEntry {
+	verifBeforeRLock(&f.fibStrategyRWMutex, "fib.rlock")
 	f.fibStrategyRWMutex.RLock()
 	defer f.fibStrategyRWMutex.RUnlock()
 
@@ -257,6 +263,7 @@ func (f *FibStrategyTree) GetAllFIBEntries() []FibStrategyEntry {
 
 // SetStrategy sets the strategy for the specified prefix.
 func (f *FibStrategyTree) SetStrategyEnc(name enc.Name, strategy enc.Name) {
+	verifBeforeWLock(&f.fibStrategyRWMutex, "fib.lock")
 	f.fibStrategyRWMutex.Lock()
 	defer f.fibStrategyRWMutex.Unlock()
 
@@ -272,6 +279,7 @@ func (f *FibStrategyTree) SetStrategyEnc(name enc.Name, strategy enc.Name) {
 
 // UnsetStrategy unsets the strategy for the specified prefix.
 func (f *FibStrategyTree) UnSetStrategyEnc(name enc.Name) {
+	verifBeforeWLock(&f.fibStrategyRWMutex, "fib.lock")
 	f.fibStrategyRWMutex.Lock()
 	defer f.fibStrategyRWMutex.Unlock()
 	entry := f.root.findExactMatchEntryEnc(name)
@@ -283,6 +291,7 @@ func (f *FibStrategyTree) UnSetStrategyEnc(name enc.Name) {
 
 // GetAllForwardingStrategies returns all strategy choice entries in the Strategy Table.
 func (f *FibStrategyTree) GetAllForwardingStrategies() []FibStrategyEntry {
+	verifBeforeRLock(&f.fibStrategyRWMutex, "fib.rlock")
 	f.fibStrategyRWMutex.RLock()
 	defer f.fibStrategyRWMutex.RUnlock()
 
